@@ -3,10 +3,12 @@
    [Print Assumptions]; statements are pinned in Pins/C20.v.
    Step 1 (wire formats): fragment header and LOWPAN_NHC UDP header.
    Step 2 (fragmentation arithmetic and reassembly): dispatch_sixlowpan / dispatch_sixlowpan_frag,
-   process_sixlowpan_fragment over the C15 tracker. *)
+   process_sixlowpan_fragment over the C15 tracker.
+   Step 3 (LOWPAN_IPHC): Repr::emit / Repr::parse with address reconstruction. *)
 From SV Require Import Lib.Base Gen.Consts Gen.WireFields Model.WireBase Model.WireSixFrag Model.WireNhc.
-From SV Require Import Model.Assembler Model.LowpanFrag.
+From SV Require Import Model.Assembler Model.LowpanFrag Model.WireIphc.
 From SV Require Import Proofs.WireBaseProofs Proofs.AssemblerProofs Proofs.LowpanWireProofs Proofs.LowpanFragProofs.
+From SV Require Import Proofs.LowpanIphcBitsProofs Proofs.LowpanIphcProofs.
 
 (* ---------- fragment header (FRAG1 / FRAGN) ---------- *)
 
@@ -188,3 +190,29 @@ Print Assumptions C20_lowpan_fragments_reassemble.
 Theorem C20_configured_sizes : lpf_BUFFER + 48 < 2048 /\ 1 <= lpf_N /\ 1 <= lpf_SLOTS.
 Proof. exact lpf_config_fits. Qed.
 Print Assumptions C20_configured_sizes.
+
+(* ---------- step 3: LOWPAN_IPHC ---------- *)
+
+(* iphc_roundtrip: for EVERY header the stack can build (any 16-octet source / destination: unspecified,
+   link-local derived from a short or extended link-layer address, other link-local, global,
+   every multicast form; any next header / hop limit; any link-layer addresses), ANY previous buffer
+   content and ANY context table at the receiver: buffer_len is the emitted length, emit writes
+   exactly [iphc_bytes r] and leaves the rest, and parse with the same link-layer addresses gives r
+   back; payload() is what follows the header. *)
+Theorem C20_iphc_roundtrip : forall r b ctx,
+  iphc_repr_wf r = true -> bytes_ok b = true -> blen (iphc_bytes r) <= blen b ->
+  iphc_buffer_len r = Ok (blen (iphc_bytes r)) /\
+  iphc_emit r b = Ok (iphc_bytes r ++ skipn (Z.to_nat (blen (iphc_bytes r))) b) /\
+  iphc_parse (iphc_bytes r ++ skipn (Z.to_nat (blen (iphc_bytes r))) b) (ir_ll_src r) (ir_ll_dst r) ctx = Ok r /\
+  iphc_payload (iphc_bytes r ++ skipn (Z.to_nat (blen (iphc_bytes r))) b) = Ok (skipn (Z.to_nat (blen (iphc_bytes r))) b).
+Proof. exact iphc_roundtrip. Qed.
+Print Assumptions C20_iphc_roundtrip.
+
+(* Repr::parse (all SAC/SAM/M/DAC/DAM/CID/TF combinations, stateful contexts included) never
+   panics on ANY octet string, nor do check_len, payload and header_len after check_len *)
+Theorem C20_iphc_parse_no_panic : forall b lls lld ctx,
+  iphc_ll_wf lls = true -> iphc_ll_wf lld = true ->
+  iphc_parse b lls lld ctx <> Panic /\ iphc_check_len b <> Panic /\
+  (iphc_check_len b = Ok tt -> iphc_payload b <> Panic /\ iphc_header_len b <> Panic).
+Proof. exact iphc_parse_total. Qed.
+Print Assumptions C20_iphc_parse_no_panic.
